@@ -31,7 +31,8 @@ def bounds(tier):
             'close_offsets': 'every offset 0..L (quick: for the larger outputs every offset only at two alignments, elsewhere offsets <=24, >=L-24, within 2 of each 1 KiB boundary and every 41st)', 'alignments': 16 if tier == 'quick' else 64}
 
 
-DIR_FAULTS = ['chmod000', 'opendir:EACCES', 'opendir:ENOENT', 'opendir:ENOTDIR', 'readdir:0', 'readdir:1']
+# chmod444: the directory can be listed but not searched - its sub-directories are the ones that cannot be listed
+DIR_FAULTS = ['chmod000', 'opendir:EACCES', 'opendir:ENOENT', 'opendir:ENOTDIR', 'readdir:0', 'readdir:1', 'chmod444']
 PATHS = {'stream': ('path', ''), 'ordered': ('path', ' order by path'), 'aggregate': ('count(*)', '')}
 
 
@@ -129,7 +130,13 @@ def eval_group(env, group, tier):
                                 continue
                             q = col + ' from .' + mode + tail + ' into list'
                             envx, user, preload = {}, None, False
-                            if fk == 'chmod000':
+                            if fk == 'chmod444':
+                                kids = [p for p, n, l in core.walk_tree(tree) if n['t'] == 'd' and os.path.dirname(p) == combo[0]]
+                                if not kids:
+                                    continue      # nothing below it has to be listed: not a fault run
+                                os.chmod(os.path.join(root, combo[0]), 0o444)
+                                user = NOBODY
+                            elif fk == 'chmod000':
                                 for d in combo:
                                     os.chmod(os.path.join(root, d), 0)
                                 user = NOBODY
@@ -147,7 +154,7 @@ def eval_group(env, group, tier):
                                 o = env.run([q], cwd=root, env=envx, preload=preload, user=user)
                                 o_nobody = env.run([q], cwd=root, user=NOBODY) if fk is None else None
                             finally:
-                                if fk == 'chmod000':
+                                if fk in ('chmod000', 'chmod444'):
                                     for d in combo:
                                         os.chmod(os.path.join(root, d), 0o755)
                             if fk and fk.startswith('readdir'):
@@ -174,6 +181,8 @@ def eval_group(env, group, tier):
                                 continue
                             # a failing directory beneath another failing directory is never reached, so it cannot be named
                             reachable = [d for d in combo if not any(under(d, e_) for e_ in combo if e_ != d)]
+                            if fk == 'chmod444':
+                                reachable = kids      # every sub-directory of the unsearchable directory fails and has to be named
                             if not all(('./' + d) in err for d in reachable):
                                 emit(sub, False, 'failing-path-not-named:' + fk, dict(o.brief(), query=q, dirs=list(combo)))
                                 continue
@@ -183,7 +192,7 @@ def eval_group(env, group, tier):
                                     n = int(rows[0])
                                 except (ValueError, IndexError):
                                     n = -1
-                                ok = len(rows) == 1 and len(outside) <= n <= len(allrows) and (fk.startswith('readdir') or n == len(outside))
+                                ok = len(rows) == 1 and len(outside) <= n <= len(allrows) and (fk.startswith('readdir') or fk == 'chmod444' or n == len(outside))
                                 emit(sub, ok, 'aggregate-under-fault:' + fk, {'query': q, 'got': rows, 'outside': len(outside), 'dirs': list(combo)})
                                 continue
                             got = sorted(rows)
@@ -192,6 +201,9 @@ def eval_group(env, group, tier):
                             inside = [p for p in got if p not in outside]
                             dup = len(got) != len(set(got))
                             bad_inside = inside and not fk.startswith('readdir')
+                            if fk == 'chmod444':
+                                # the names directly inside the listable directory may be reported, nothing deeper can be
+                                bad_inside = any(os.path.dirname(p) != './' + combo[0] for p in inside)
                             ok = not missing and not extra and not dup and not bad_inside
                             emit(sub, ok, 'rows-under-fault:' + fk, {'query': q, 'missing': missing, 'extra': extra, 'inside': inside, 'dup': dup,
                                                                        'dirs': list(combo)}, sig=(fk, tuple(got)))
